@@ -70,7 +70,7 @@ inductive Expr where
   | un (op : UnOp) (e : Expr)
   | bin (op : BinOp) (a b : Expr)
   | cond (c a b : Expr)
-  deriving Repr
+  deriving DecidableEq, Repr
 
 /-- why a controlling expression has no value -/
 inductive PPErr where
